@@ -709,6 +709,10 @@ def gen_abi():
     table("abiRustExtern", [(n, p, r) for _, n, p, r in ext])
     lines.append("def trampolineAcceptsNames : List (List Nat) := [\n  %s\n]" % ",\n  ".join(name_lit(o) for o, _ in sorted(pairs)))
     table("trampolineExpectedSigs", [(n, p, r) for n, (p, r) in expected.items()])
+    lines.append("/-- the trampoline's IMPORTS table in source order: (public name, provider name or empty) -/")
+    lines.append("def trampolineImportPairs : List (List Nat × List Nat) := [\n  %s\n]" % ",\n  ".join("(%s, %s)" % (name_lit(o), name_lit(nw)) for o, nw in pairs))
+    lines.append("/-- provider imports the trampoline adds, with explicit types, in source order -/")
+    lines.append("def trampolineAdds : List Sig := [\n  %s\n]" % ",\n  ".join(sig_lit((n, p_, r_)) for n, (p_, r_) in emitted.items()))
     # what the trampoline emits: renamed imports keep the guest's (= WAT's) signature
     watd = dict((n, (p, r)) for _, n, p, r in wat)
     emits = []
